@@ -89,13 +89,95 @@ def jobs(pid, tier, seed):
             out.append({"kind": "strace", "schema": schema, "part": part, "stride": 1 if tier == "thorough" else 2})
     n = 160 if tier == "quick" else 4000
     out += [{"kind": "existing", "seed": seed * 1000003 + i} for i in range(n)]
+    # the whole start path of the service (Options -> makeService -> start -> stop) on directories that hold both
+    # databases under related names, in every combination of present / absent
+    out += [{"kind": "service", "scheme": sc, "chan": c, "usage": u, "seed": seed}
+            for sc in range(len(NAME_SCHEMES)) for c in ("absent", "valid") for u in ("absent", "valid", "v1")]
     return out
+
+
+NAME_SCHEMES = [("relay.sqlite", "usage.sqlite"), ("relay.sqlite", "relay.sqlite.usage"), ("wormhole.db.channels", "wormhole.db"),
+                ("db", "db-usage"), ("mailbox.db", "mailbox.db.usage.sqlite"), ("x.sqlite.tmp", "x.sqlite")]
+
+
+def run_service_start(job, acc):
+    """C19 through the service's own start path: whatever the two database paths are called, starting keeps every
+    existing current-version database, upgrades an older usage database with all its rows, creates what is missing,
+    and leaves every other file in the directory alone."""
+    from ..engine import World
+    database = db()
+    r = random.Random(job["seed"] * 977 + hash((job["scheme"], job["chan"], job["usage"])) % 1000)
+    cname, uname = NAME_SCHEMES[job["scheme"]]
+    base = new_workdir("c19s")
+    case = "service:%s" % sorted(job.items())
+    try:
+        cpath, upath = os.path.join(base, cname), os.path.join(base, uname)
+        if job["chan"] == "valid":
+            make_valid(database, "channel", cpath, r, nrows=6)
+        if job["usage"] == "valid":
+            make_valid(database, "usage", upath, r, nrows=6)
+        elif job["usage"] == "v1":
+            here = os.path.join(os.path.dirname(os.path.dirname(os.path.abspath(__file__))), "legacy", "usage-v1.sql")
+            c = sqlite3.connect(upath)
+            c.executescript(open(here).read())
+            c.execute("INSERT INTO version (version) VALUES (1)")
+            for i in range(5):
+                c.execute("INSERT INTO nameplates (app_id, started, waiting_time, total_time, result) VALUES (?,?,?,?,?)", ("a", i, None, 7, "happy"))
+                c.execute("INSERT INTO mailboxes (app_id, for_nameplate, started, total_time, waiting_time, result) VALUES (?,?,?,?,?,?)", ("a", 1, i, 2, None, "lonely"))
+            c.commit()
+            c.close()
+        others = {}
+        for f in (cname + ".bak", uname + ".bak", "unrelated.txt", cname + "-old", "notes." + cname):
+            fp = os.path.join(base, f)
+            if not os.path.exists(fp):
+                open(fp, "wb").write(b"other file " + f.encode())
+                others[f] = F.file_bytes(fp)
+        def rows(p):
+            return {t: v for t, v in F.all_rows(p).items() if t not in ("version", "current")}
+        rows_before = {p: rows(p) for p in (cpath, upath) if os.path.exists(p)}
+        w = World(base, Config(usage=True))
+        w.channel_path, w.usage_path = cpath, upath
+        exc = None
+        try:
+            w.start(start_timer=False)      # (no expiry sweep: what is judged is what opening the files does to them)
+            w.stop()
+        except BaseException as e:
+            exc = e
+        finally:
+            w.close()
+        import gc; gc.collect()
+        acc.ev["c19_service_start"] += 1
+        acc.cases += 1
+        acc.distinct.add(case)
+        if exc is not None:
+            return viol(acc, case, "the service does not start on valid / absent database files", {"exc": repr(exc)[:300], "listing": sorted(os.listdir(base))})
+        for f, data in others.items():
+            acc.ev["c19_sibling_file_checked"] += 1
+            fp = os.path.join(base, f)
+            if not os.path.exists(fp) or F.file_bytes(fp) != data:
+                return viol(acc, case, "starting the service deleted or modified another file of the directory", {"file": f, "exists": os.path.exists(fp)})
+        for p, before in rows_before.items():
+            if not os.path.exists(p):
+                return viol(acc, case, "an existing database is gone after starting the service", {"file": os.path.basename(p)})
+            after = rows(p)
+            lost = [t for t, v in before.items() if sorted(v, key=repr) != sorted(after.get(t, []), key=repr)]
+            if lost:
+                return viol(acc, case, "starting the service changed the contents of an existing database",
+                            {"file": os.path.basename(p), "tables": {t: [len(before[t]), len(after.get(t, []))] for t in lost}})
+        for p, schema in ((cpath, "channel"), (upath, "usage")):
+            pr = F.complete_db_problems(p, fresh_schema(database, schema), SCHEMAS[schema])
+            if pr:
+                return viol(acc, case, "database not complete after the service started", {"file": os.path.basename(p), "problems": pr})
+    finally:
+        rmtree(base)
 
 
 def run_job(pid, job, acc):
     k = job["kind"]
     if k == "existing":
         return run_existing(job, acc)
+    if k == "service":
+        return run_service_start(job, acc)
     database = db()
     schema = job["schema"]
     base = new_workdir("c19")
